@@ -45,7 +45,7 @@ def gen_case(rng, tier, i):
 
 
 def gen(tier, rng):
-    n = 60 if tier == 'quick' else 600
+    n = 90 if tier == 'quick' else 900
     return [gen_case(rng, tier, i) for i in range(n)]
 
 
